@@ -35,6 +35,22 @@ Ok(r) == [ok |-> TRUE, r |-> r]
 Raise(exc) == [ok |-> FALSE, exc |-> exc]
 
 (***************************************************************************)
+(* Key notations.  A path is written as a list, a tuple or a dotted string *)
+(* (DeleteContext; get_recursively also takes a key dictionary).  The      *)
+(* dotted string of a path is represented by its components as str.split   *)
+(* sees them: never an empty sequence - the empty string has the single    *)
+(* component "".  str_to_list is documented to differ from str.split in    *)
+(* exactly that case: "If the string s is empty, an empty list is          *)
+(* returned".  A path whose only key is "" has no dotted notation.         *)
+(***************************************************************************)
+Notations == {"list", "tuple", "str"}
+HasNotation(nt, p) == nt = "str" => p # <<"">>
+SplitView(p) == IF p = <<>> THEN <<"">> ELSE p
+KeyArg(nt, p) == IF nt = "str" THEN SplitView(p) ELSE p      \* the argument as written
+StrToList(sv) == IF sv = <<"">> THEN <<>> ELSE sv
+NormKey(nt, arg) == IF nt = "str" THEN StrToList(arg) ELSE arg   \* the list of keys the element works with
+
+(***************************************************************************)
 (* Templates                                                               *)
 (***************************************************************************)
 \* a field may carry a conversion: "" (plain), "r" ({{x!r}}) or "s" ({{x!s}})
@@ -169,12 +185,19 @@ UpdateOutcomes(c, d, rs) ==
   ELSE IF Absent(c, d) /\ c.o.skip THEN {Res(Ok(d), d)}                     \* value passes unchanged
   ELSE IF Absent(c, d) /\ (c.o.raise \/ (RefMode(c) /\ ~c.o.def)) THEN {Res(Raise("LenaKeyError"), d)}
   ELSE LET e == UpdateRef(d, c.path, UpdValue(c, d, rs), c.o.rec) IN {Res(Ok(e), e)}
-DeleteOutcomes(c, d) ==
+\* an empty key: not documented (the source says "removes the entire context"); anything but an
+\* exception that is not a LenaTypeError / LenaValueError.  What is done is a policy (mode) of the
+\* element: it may not depend on the notation in which the (empty) key was written.
+EmptyKeyModes == {"keep", "clear", "LenaValueError", "LenaTypeError"}
+DeleteOutcomeM(c, d, mode) ==
   IF c.path = <<>>
-    \* an empty key: not documented (the source says "removes the entire context"); anything but
-    \* an exception that is not a LenaTypeError / LenaValueError
-    THEN {Res(Ok(d), d), Res(Ok(Empty), Empty), Res(Raise("LenaValueError"), d), Res(Raise("LenaTypeError"), d)}
-  ELSE LET e == DeleteRef(d, c.path) IN {Res(Ok(e), e)}
+    THEN CASE mode = "keep" -> Res(Ok(d), d)
+           [] mode = "clear" -> Res(Ok(Empty), Empty)
+           [] OTHER -> Res(Raise(mode), d)
+  ELSE LET e == DeleteRef(d, c.path) IN Res(Ok(e), e)
+DeleteOutcomes(c, d) ==
+  IF c.path = <<>> THEN {DeleteOutcomeM(c, d, m) : m \in EmptyKeyModes}
+  ELSE {DeleteOutcomeM(c, d, "clear")}
 FuwOutcomes(c, d, rs) ==
   IF c.uk = "bad" THEN {Res(Raise("LenaValueError"), d)}
   ELSE IF c.uk = "str" /\ HasField(c.tpl) /\ ~AllPresent(d, c.tpl) THEN {Res(Raise("LenaKeyError"), d)}
